@@ -112,6 +112,29 @@ for k in ("C09", "C20"):
     lv, eng, tech, text, note = checks[k]
     checks[k] = (lv, eng, E1 + "; " + E3, text, note)
 
+# later rounds (DESIGN.md 10.7 - 10.9)
+LATER = {
+ "C01": " Later rounds: text form of every 1..3-byte proprietary payload pattern x 4 MICs; the frame alphabet overwrites its input buffer after decoding, logs received frames as JSON / text, and carries frames with FPort 0 / FPort without payload and with a registered proprietary command.",
+ "C03": " Later rounds: FRMPayload given as several items; a nil result on over-long FOpts must preserve the length.",
+ "C04": " Later rounds: encryption with explicitly carried MIC values (all-zero included).",
+ "C05": " Later rounds: the sender-receiver hop also in base64 text form; every decodable tampered frame is validated whatever it decodes to (rejection, never a panic).",
+ "C06": " Later rounds: channel-mask CFList in the join-accept layout for every DLSettings byte.",
+ "C08": " Later rounds: received frames are logged (JSON, text) before re-encoding.",
+ "C09": " Later rounds: well-formed text of every length 0..130 (8 patterns) through all text decoders and JSON; an allocation-based cost oracle (bytes allocated on 16k/32k/64k-character inputs may not more than triple per doubling).",
+ "C10": " Later rounds: reuse histories demand equal acceptance (error into a used value iff error into a fresh one); guarded join-accept / proprietary / opaque-CFList buffers; a schedule scenario with keys no earlier call of the process has used.",
+ "C13": " Later rounds: RX1 results through the accessor, number of TX-power steps per region, channel plans walked through the accessors.",
+ "C14": " Later rounds: placeholder channels (frequency 0) in the explored histories.",
+ "C15": " Later rounds: 50 far integers through every index accessor.",
+ "C16": " Later rounds: upper-case SenderID, failing / default operator callbacks and HomeNSReq (mirrored identifiers), the MACVersion string x OptNeg, and k requests carrying one PHYPayload in flight together with the overlap forced through the device-keys callback.",
+ "C17": " Later rounds: the 13 building-block structs enumerate the subsets of their own optional fields.",
+ "C18": " Later rounds: every payload decoded into a value used before; DevUpgradeImageAns as received (status byte 0..255 x versions x follower).",
+ "C19": " Later rounds: large blocks and redundancy up to 130 (M up to 300, fragment size up to 64).",
+ "C20": " Later rounds: the day enumeration starts at 1980-01-01 (five days before the GPS epoch).",
+}
+for k, t in LATER.items():
+    lv, eng, tech, text, note = checks[k]
+    checks[k] = (lv, eng, tech, text + t, note)
+
 def load_extra():
     p = os.path.join(V, "bin", "manifest_table.json")
     if os.path.exists(p):
